@@ -52,6 +52,19 @@ CHECKS = {
              "units (Fraction magnitudes) are recomputed by Trace_Reg and log units checked against their formula in float.",
         design_ref="DESIGN.md section 3, C06",
         note="Logarithms are floating point: tolerance 1e-9; // and % with offset units are outside the documented table and not claimed."),
+    "C11": dict(
+        technique="TLA+ spec (PintRegistry instance MC_C11) model-checked with TLC for shortest-chain / precedence / parameter laws; every TLC stack realised through nine activation forms on real registries with set-valued comparison; bundled-context conversions validated by the TLC trace spec Trace_Ctx in fingerprint arithmetic",
+        text="TLC explores every stack of up to three activations over contexts with colliding edges, a direct edge competing with a two-step chain, "
+             "parameters (keyword / enclosing context / default) and a redefinition, and checks that the search returns exactly the shortest chains, "
+             "that the most recent provider wins, that unreachable targets are refused, that same-dimension conversions are untouched and that a "
+             "redefinition reaches dependent units exactly while active.  Each stack is then realised through enable_contexts (sequential, single "
+             "call), nested with-blocks, to(u, ctx, **kw), ureg.convert, @with_context, alias, Context object, text-loaded and API-built contexts and "
+             "16 probe conversions are compared with the specification's admissible set (exact).  Conversions under random stacks of the bundled "
+             "contexts (spectroscopy, boltzmann, energy, chemistry, textile) are recomputed by Trace_Ctx from the equations as read by the independent "
+             "reader.",
+        design_ref="DESIGN.md section 3, C11",
+        note="Which enclosing context lends parameters is left open by the statement: the specification admits any active one (set-valued). Gaussian / "
+             "ESU (irrational factors) are covered relationally by C13 only."),
     "C12": dict(
         technique="TLA+ state machine (PintRegistry) model-checked with TLC (action properties AtomicFailure, NoResidue, StackDiscipline); every TLC behaviour of length 3 replayed step by step on real registries; random histories of real calls validated by the total TLC trace spec Trace_Pint",
         text="PintRegistry.tla has one action per public mutating call (enable / disable / with-enter / with-exit normal and by exception / define / "
